@@ -220,7 +220,17 @@ type DefaultBuilder = AppBuilder<
 
 fn block_of(h: u64) -> BlockInfo {
     // boundary values included: blank chain id, height 0-like small values, zero time
-    let chain_id = if h % 5 == 0 { String::new() } else { format!("chain-{}", h) };
+    // (and chain ids of 49 .. 52 and 300 characters, unicode, surrounding whitespace)
+    let chain_id = match h % 13 {
+        0 | 5 => String::new(),
+        1 => format!("{:-<49}", format!("c{}", h)),
+        2 => format!("{:-<50}", format!("c{}", h)),
+        3 => format!("{:-<51}", format!("c{}", h)),
+        4 => format!("{:-<300}", format!("c{}", h)),
+        6 => format!(" chain-{} ", h),
+        7 => format!("cha\u{e9}n-{}", h),
+        _ => format!("chain-{}", h),
+    };
     let time = if h % 7 == 0 { Timestamp::from_nanos(0) } else { Timestamp::from_seconds(1_000_000 + h) };
     BlockInfo { height: if h % 11 == 0 { 0 } else { h }, time, chain_id }
 }
